@@ -1,48 +1,92 @@
 /-!
-# C19 — effect IR, its concrete semantics and the flow-sensitive may-write / may-alias analysis
+# C19 — effect IR with a heap, its concrete semantics and the flow-sensitive may-write / may-alias analysis
 
 The IR is produced from pewlib's Python source on every run by `harness/effects/translate.py`.
-Objects are numbers; the parameters of the analysed function are the objects `< np`; a parameter
-together with everything reachable from it (elements, attributes, views) is one object/region.
-`Exec` is the concrete (nondeterministic) semantics: branches are free, loops run any number of
-times, ANY statement may raise (`done = false`), leaving the state reached so far.
-`ana` is the abstract interpretation; `report`/`reportRet` are what the check consumes.
+
+Objects are pairs `(identity class, serial)`.  Parameter `i` of the analysed function is the object `(i, 0)`,
+`i < np`; a parameter together with everything reachable from it when the call starts (elements, attributes,
+views) is that ONE object (a region).  An object allocated at allocation site `k` is `(np + k, serial)`.
+Objects reference each other through labelled heap edges `(o, l, o')` ("`o` holds a reference to `o'` in
+slot `l`"; label `0` is the wildcard: elements of containers, `setattr`, `vars(o)[k]`).  The heap is what lets
+several names of ONE container see what was stored through any of them.
+
+`Exec` is the concrete (nondeterministic) semantics: branches are free, loops run any number of times, ANY
+statement may raise (`done = false`), leaving the state reached so far.  A read of an unbound variable has no
+execution other than `raise` (Python: `UnboundLocalError`); the translator never emits one (it checks definite
+assignment of its own output and fails closed).
+`ana` is the abstract interpretation (abstract objects: parameters and allocation sites; one abstract heap);
+`report` / `reportRet` are what the check consumes.
 -/
 namespace Pew.Effects
 
 abbrev Var := Nat
-abbrev Obj := Nat
+abbrev Lbl := Nat
+abbrev Obj := Nat × Nat
+abbrev Edge := Obj × Lbl × Obj
 
 inductive Src where
-  | param (i : Nat) | fresh | alias (ys : List Var) | unknown
+  | param (i : Nat)
+  /-- a new object of allocation site `k` -/
+  | fresh (k : Nat)
+  /-- the object of one of `ys` -/
+  | alias (ys : List Var)
+  /-- what slot `l` of the object of one of `ys` holds; a parameter region holds itself; or a value computed on
+      the fly (a new object of site `k`) -/
+  | load (ys : List Var) (l : Lbl) (k : Nat)
+  /-- any object reachable (in zero or more steps) from the object of one of `ys` -/
+  | reach (ys : List Var)
+  /-- any parameter or any object allocated so far -/
+  | unknown
 deriving Repr
 
 inductive Stmt where
   | skip | bind (x : Var) (s : Src) | write (x : Var) | ret (x : Var)
+  /-- the object of `x` now holds, in slot `l`, a reference to the object of `y` -/
+  | store (x : Var) (l : Lbl) (y : Var)
   | seq (a b : Stmt) | branch (a b : Stmt) | loop (b : Stmt)
 deriving Repr
 
 structure St where
   env : Var → Option Obj
   next : Nat
+  objs : List Obj
+  heap : List Edge
   written : List Obj
   returned : List Obj
 
 def upd (e : Var → Option Obj) (x : Var) (o : Obj) : Var → Option Obj :=
   fun y => if y = x then some o else e y
 
+/-- label `0` matches every label -/
+def lmatch (l l' : Lbl) : Bool := l == 0 || l' == 0 || l == l'
+
+inductive Reach (h : List Edge) : Obj → Obj → Prop where
+  | refl (o) : Reach h o o
+  | step (o l o' o'') : (o, l, o') ∈ h → Reach h o' o'' → Reach h o o''
+
 /-- `Exec np s σ done σ'`: running `s` from `σ` can reach `σ'`; `done = false` means an exception
     was raised somewhere inside (the state is whatever had been done by then). -/
 inductive Exec (np : Nat) : Stmt → St → Bool → St → Prop where
   | raise (s σ) : Exec np s σ false σ
   | skip (σ) : Exec np .skip σ true σ
-  | bindParam (x i σ) : i < np → Exec np (.bind x (.param i)) σ true { σ with env := upd σ.env x i }
-  | bindFresh (x σ) : Exec np (.bind x .fresh) σ true { σ with env := upd σ.env x σ.next, next := σ.next + 1 }
+  | bindParam (x i σ) : i < np → Exec np (.bind x (.param i)) σ true { σ with env := upd σ.env x (i, 0) }
+  | bindFresh (x k σ) : Exec np (.bind x (.fresh k)) σ true
+      { σ with env := upd σ.env x (np + k, σ.next), next := σ.next + 1, objs := (np + k, σ.next) :: σ.objs }
   | bindAlias (x ys y o σ) : y ∈ ys → σ.env y = some o →
       Exec np (.bind x (.alias ys)) σ true { σ with env := upd σ.env x o }
-  | bindUnknown (x o σ) : o < σ.next → Exec np (.bind x .unknown) σ true { σ with env := upd σ.env x o }
+  | bindLoadEdge (x ys l k y o l' o' σ) : y ∈ ys → σ.env y = some o → (o, l', o') ∈ σ.heap → lmatch l l' = true →
+      Exec np (.bind x (.load ys l k)) σ true { σ with env := upd σ.env x o' }
+  | bindLoadSelf (x ys l k y o σ) : y ∈ ys → σ.env y = some o → o.1 < np →
+      Exec np (.bind x (.load ys l k)) σ true { σ with env := upd σ.env x o }
+  | bindLoadNew (x ys l k σ) : Exec np (.bind x (.load ys l k)) σ true
+      { σ with env := upd σ.env x (np + k, σ.next), next := σ.next + 1, objs := (np + k, σ.next) :: σ.objs }
+  | bindReach (x ys y o o' σ) : y ∈ ys → σ.env y = some o → Reach σ.heap o o' →
+      Exec np (.bind x (.reach ys)) σ true { σ with env := upd σ.env x o' }
+  | bindUnknown (x o σ) : (o.1 < np ∨ o ∈ σ.objs) → Exec np (.bind x .unknown) σ true { σ with env := upd σ.env x o }
   | write (x o σ) : σ.env x = some o → Exec np (.write x) σ true { σ with written := o :: σ.written }
   | ret (x o σ) : σ.env x = some o → Exec np (.ret x) σ true { σ with returned := o :: σ.returned }
+  | store (x l y o o' σ) : σ.env x = some o → σ.env y = some o' →
+      Exec np (.store x l y) σ true { σ with heap := (o, l, o') :: σ.heap }
   | seq (a b σ σ₁ d σ₂) : Exec np a σ true σ₁ → Exec np b σ₁ d σ₂ → Exec np (.seq a b) σ d σ₂
   | seqRaise (a b σ σ₁) : Exec np a σ false σ₁ → Exec np (.seq a b) σ false σ₁
   | branchL (a b σ d σ') : Exec np a σ d σ' → Exec np (.branch a b) σ d σ'
@@ -51,10 +95,21 @@ inductive Exec (np : Nat) : Stmt → St → Bool → St → Prop where
   | loopStep (b σ σ₁ d σ₂) : Exec np b σ true σ₁ → Exec np (.loop b) σ₁ d σ₂ → Exec np (.loop b) σ d σ₂
   | loopRaise (b σ σ₁) : Exec np b σ false σ₁ → Exec np (.loop b) σ false σ₁
 
-/-- abstract state: per variable the parameters it may point into; parameters possibly written -/
+/-! ## abstract interpretation
+
+abstract objects are numbers: parameter `i < np`, allocation site `k` as `np + k` -/
+
+abbrev AEdge := Nat × Lbl × Nat
+
 structure A where
   top : Bool
+  /-- per variable: the abstract objects it may hold -/
   env : List (Var × List Nat)
+  /-- abstract heap (weak updates only: edges are never removed) -/
+  heap : List AEdge
+  /-- allocation sites that may have allocated -/
+  alloc : List Nat
+  /-- parameters possibly written; abstract objects (parameters AND sites) possibly returned -/
   w : List Nat
   r : List Nat
 deriving Repr
@@ -70,42 +125,76 @@ def A.vars (a : A) : List Var := a.env.map (·.1)
 def joinA (a b : A) : A :=
   { top := a.top || b.top
     env := (a.vars ++ b.vars).eraseDups.map (fun x => (x, (a.raw x ++ b.raw x).eraseDups))
+    heap := (a.heap ++ b.heap).eraseDups
+    alloc := (a.alloc ++ b.alloc).eraseDups
     w := (a.w ++ b.w).eraseDups
     r := (a.r ++ b.r).eraseDups }
 
 def leA (a b : A) : Bool :=
   b.top || (!a.top && a.vars.all (fun x => (a.raw x).all (fun p => (b.raw x).contains p))
+            && a.heap.all (fun e => b.heap.contains e) && a.alloc.all (fun k => b.alloc.contains k)
             && a.w.all (fun p => b.w.contains p) && a.r.all (fun p => b.r.contains p))
 
-def topA : A := { top := true, env := [], w := [], r := [] }
+def topA : A := { top := true, env := [], heap := [], alloc := [], w := [], r := [] }
 
 def iter (f : A → A) : Nat → A → Option A
   | 0, _ => none
   | n + 1, a => let a' := joinA a (f a); if leA a' a then some a else iter f n a'
 
+/-- targets of the edges leaving one of `os` through a slot matching `l` -/
+def targets (h : List AEdge) (os : List Nat) (l : Lbl) : List Nat :=
+  h.filterMap (fun e => if os.contains e.1 && lmatch l e.2.1 then some e.2.2 else none)
+
+/-- one round of following every edge -/
+def succs (h : List AEdge) (os : List Nat) : List Nat :=
+  h.filterMap (fun e => if os.contains e.1 then some e.2.2 else none)
+
+def closeN (h : List AEdge) : Nat → List Nat → List Nat
+  | 0, os => os
+  | n + 1, os => closeN h n (os ++ succs h os).eraseDups
+
+/-- `os` is closed under the edges of `h` -/
+def closedB (h : List AEdge) (os : List Nat) : Bool :=
+  h.all (fun e => !os.contains e.1 || os.contains e.2.2)
+
 def ana (np : Nat) : Stmt → A → A
   | .skip, a => a
   | .bind x (.param i), a => a.set x [i]
-  | .bind x .fresh, a => a.set x []
+  | .bind x (.fresh k), a => { a.set x [np + k] with alloc := ((np + k) :: a.alloc).eraseDups }
   | .bind x (.alias ys), a => a.set x (ys.flatMap a.raw)
-  | .bind x .unknown, a => a.set x (allParams np)
-  | .write x, a => { a with w := (a.raw x ++ a.w).eraseDups }
+  | .bind x (.load ys l k), a =>
+      let os := ys.flatMap a.raw
+      { a.set x ((np + k) :: (os.filter (· < np) ++ targets a.heap os l)) with alloc := ((np + k) :: a.alloc).eraseDups }
+  | .bind x (.reach ys), a =>
+      let os := (ys.flatMap a.raw).eraseDups
+      let c := closeN a.heap (a.heap.length + 1) os
+      if closedB a.heap c then a.set x c else topA
+  | .bind x .unknown, a => a.set x (allParams np ++ a.alloc)
+  | .write x, a => { a with w := ((a.raw x).filter (· < np) ++ a.w).eraseDups }
   | .ret x, a => { a with r := (a.raw x ++ a.r).eraseDups }
+  | .store x l y, a =>
+      { a with heap := ((a.raw x).flatMap (fun o => (a.raw y).map (fun o' => (o, l, o'))) ++ a.heap).eraseDups }
   | .seq s t, a => ana np t (ana np s a)
   | .branch s t, a => joinA (ana np s a) (ana np t a)
   | .loop b, a =>
-      match iter (ana np b) 8 a with
+      match iter (ana np b) 12 a with
       | some a' => if leA (ana np b a') a' && leA a a' then a' else topA
       | none => topA
 
 /-- what is reported: the parameters a function may write -/
 def A.report (np : Nat) (a : A) : List Nat := if a.top then allParams np else a.w
 
-/-- the parameters the result may share memory with -/
-def A.reportRet (np : Nat) (a : A) : List Nat := if a.top then allParams np else a.r
+/-- parameter `p` may be, or may (at the end) hold a reference to, a returned object: some possibly returned abstract
+    object lies in the (checked) closure of `p` under the final abstract heap -/
+def A.reachesRet (a : A) (p : Nat) : Bool :=
+  let c := closeN a.heap (a.heap.length + 1) [p]
+  !closedB a.heap c || a.r.any (fun o => c.contains o)
 
-def A.empty : A := ⟨false, [], [], []⟩
+/-- the parameters the result may share memory with: a returned object is (in the region of) the parameter, or the
+    parameter has come to hold a reference to it (the function stored part of its result INTO the argument) -/
+def A.reportRet (np : Nat) (a : A) : List Nat :=
+  if a.top then allParams np else (allParams np).filter a.reachesRet
 
-
+def A.empty : A := ⟨false, [], [], [], [], []⟩
 
 end Pew.Effects
